@@ -384,11 +384,14 @@ def candidates(case):
 
 
 def _pre_f12(case, result):
+    # numpy normalises a masked array when it is pickled or viewed -- ``nomask`` becomes a full
+    # boolean mask and the uncast DEFAULT fill value (int64 999999 / float64 1e20) is cast to the
+    # array's dtype -- so the token of EVERY masked meta changes across a pickle round trip, whatever
+    # its dtype (first seen for small ints, where even the fill value's number changes: 999999 -> 63).
     if result.get("cls") != "rebuild-in-process-differs":
         return False
     srcs = case["recipe"]["sources"]
-    return any(sp.get("masked") and sp.get("dtype") in ("u1", "i4", "i2", "u2", "?") for sp in srcs.values()) and any(
-        e["ev"] in ("pickle", "load") for e in case["history"])
+    return any(sp.get("masked") for sp in srcs.values()) and any(e["ev"] in ("pickle", "load") for e in case["history"])
 
 
 FINDING_ABLATIONS = {
